@@ -11,6 +11,7 @@ open Gwb
 #print axioms C01_duplicate_entries_agree
 #print axioms C01_order_and_grouping_irrelevant_2d
 #print axioms C01_output_size_2d
+#print axioms C01_no_hidden_state_2d
 #check @C01_output_size
 #check @C01_layout
 #check @C01_block_eq_single
@@ -21,3 +22,4 @@ open Gwb
 #check @C01_duplicate_entries_agree
 #check @C01_order_and_grouping_irrelevant_2d
 #check @C01_output_size_2d
+#check @C01_no_hidden_state_2d
